@@ -429,6 +429,7 @@ fn params(p: &mut Parser<'_>) -> Result<ExprParams> {
 	}
 	let mut result = Vec::new();
 	loop {
+		let start = p.span_start();
 		let d = destruct(p)?;
 		let default = if p.try_eat(T![=]) {
 			Some(Rc::new(expr(p)?))
@@ -439,6 +440,14 @@ fn params(p: &mut Parser<'_>) -> Result<ExprParams> {
 			destruct: d,
 			default,
 		});
+		if let Some(name) = ExprParams::duplicate_name(&result) {
+			return Err(ParseError {
+				location: ParseErrorLocation {
+					offset: start as usize,
+				},
+				message: format!("duplicate parameter name '{name}'"),
+			});
+		}
 		if !p.try_eat(T![,]) {
 			break;
 		}
